@@ -124,6 +124,9 @@ def step_obligations():
             a["defines"].update({"VERIF_M0": m0, "VERIF_M1": m1, "VERIF_M2": m2, "VERIF_RC_EC": ec, "VERIF_RC_ES": es})
             a["defines"].pop("VERIF_RC_UNTYPED_LEAK", None)          # index operands are ints in these shapes
             a["tier"] = "thorough" if op in ELEM_THOROUGH else "quick"
+            if op == "ARR_REMOVE":      # the release of the removed element (fix 94617c6) on top of the tail shift: 10 GB at capacity 8
+                a["defines"]["VERIF_ARR_CAP"] = 3
+                a["strength"] = "B(array capacity <= 3)"
             obs.append(a)
         # operand underflow: the same step with only one / two slots on the stack (thorough tier)
         for depth in (1, 2):
